@@ -393,7 +393,7 @@ func throughSubscriber(t *testing.T, r *vp.Recorder, kt string) {
 					continue
 				}
 				r.Eval(key, true)
-				synctest.Test(t, func(t *testing.T) {
+				leak := syncfx.Bubble(t, func(t *testing.T) {
 					w := syncfx.NewWorld()
 					defer w.Close()
 					id := fixture.Key(kt, 0)
@@ -421,8 +421,8 @@ func throughSubscriber(t *testing.T, r *vp.Recorder, kt string) {
 					if err := sub.SetLatestSync(id.ID, ch.Cids[0]); err != nil {
 						panic(err)
 					}
-					events, cancel := sub.OnSyncFinished()
-					defer cancel()
+					lst := w.Listen()
+					defer lst.Stop()
 					p.ResetLog()
 					w.ResetHooks()
 					var got cid.Cid
@@ -449,14 +449,16 @@ func throughSubscriber(t *testing.T, r *vp.Recorder, kt string) {
 						r.Violation("subscriber:latest-changed-after-rejected-head:"+name, key, fmt.Sprint(l), nil)
 						return
 					}
-					select {
-					case ev := <-events:
-						r.Violation("subscriber:event-after-rejected-head:"+name, key, fmt.Sprintf("%+v", ev), nil)
+					if evs := lst.Poll(); len(evs) != 0 {
+						r.Violation("subscriber:event-after-rejected-head:"+name, key, fmt.Sprintf("%+v", evs[0]), nil)
 						return
-					default:
 					}
 					r.Outcome("subscriber-rejected")
 				})
+				if leak != "" {
+					r.Count("bubble_leaks", 1)
+					r.Note("goroutines left in bubble for %s: %s", key, firstLine(leak))
+				}
 			}
 		}
 	}
